@@ -147,6 +147,51 @@ def make_blocks(indices, sectors, fill=("seq", 1), dtype="float64"):
     total = sum(sizes.values())
     if fill[0] == "ones":
         return {s: np.ones(shapes[s], dtype=dtype) for s in sectors}
+    if fill[0] == "spectra":
+        # designed singular values: block (c0, c1) = U[:, :r] diag(s) V[:, :r]^H, s = spectra[c1]
+        rng = np.random.default_rng([int(fill[1]), 777])
+        spectra = dict(fill[2])
+        cplx = str(dtype).startswith("complex")
+        store = {}
+        for s in sorted(sectors):
+            m, n = shapes[s]
+            sv = np.array(spectra[s[1]], dtype=float)
+
+            def orth(k):
+                a = rng.normal(size=(k, k)) + (1j * rng.normal(size=(k, k)) if cplx else 0)
+                return np.linalg.qr(a)[0]
+
+            Uo, Vo = orth(m), orth(n)
+            r = len(sv)
+            store[s] = np.asarray((Uo[:, :r] * sv) @ Vo[:, :r].conj().T, dtype=dtype)
+        return {s: store[s] for s in sectors}
+    if fill[0] in ("rand", "rank1", "herm", "dominant", "posdef"):
+        # designed float data for the linear-algebra checks (values are not an enumerated dimension)
+        rng = np.random.default_rng([int(fill[1]), 12345])
+        store = {}
+        cplx = str(dtype).startswith("complex")
+
+        def g(shape):
+            a = rng.normal(size=shape)
+            if cplx:
+                a = a + 1j * rng.normal(size=shape)
+            return a
+
+        for s in sorted(sectors):
+            shp = shapes[s]
+            if fill[0] == "rank1" and len(shp) == 2:
+                a = np.outer(g((shp[0],)), g((shp[1],)))
+            else:
+                a = g(shp)
+            if fill[0] in ("herm", "dominant", "posdef") and len(shp) == 2 and shp[0] == shp[1]:
+                if fill[0] == "herm":
+                    a = a + a.conj().T
+                elif fill[0] == "posdef":
+                    a = a @ a.conj().T + np.eye(shp[0])
+                else:
+                    a = a + (np.abs(a).sum() + 1.0) * np.eye(shp[0])
+            store[s] = np.asarray(a, dtype=dtype)
+        return {s: store[s] for s in sectors}
     vals = tag_values(total, fill)
     pos = 0
     store = {}
